@@ -98,9 +98,30 @@ def program(draw, max_pops=5, max_steps=5, allow_ancient=True, allow_true_split=
             ev = dict(op='remove', pop=r)
             live.pop(r)
         k = len(live)
+        T = draw(st.sampled_from([0.02, 0.05, 0.1]))
         sizes = []
+        cont = []
         anygrow = False
         for i in range(k):
+            prev = live[i].get('prev')
+            if prev is not None and not live[i]['frozen'] and draw(st.integers(0, 2)) == 0:
+                # the deme's epoch simply continues through this step (same law, same rate): in the graph it is ONE epoch cut
+                # by the events of the other demes
+                pk, p0, p1, pT = prev
+                if pk == 'constant':
+                    nu0 = nu1 = p1
+                elif pk == 'exponential':
+                    nu0 = p1
+                    nu1 = p1 * (p1 / p0) ** (T / pT)
+                else:
+                    nu0 = p1
+                    nu1 = p1 + (p1 - p0) * T / pT
+                if 0.05 <= nu1 <= 50.0:
+                    sizes.append([nu0, nu1, pk])
+                    cont.append(True)
+                    live[i]['prev'] = (pk, nu0, nu1, T)
+                    anygrow = anygrow or pk != 'constant'
+                    continue
             nu0 = math.exp(draw(st.floats(math.log(0.3), math.log(4.0))))
             kind = 'constant'
             nu1 = nu0
@@ -109,14 +130,15 @@ def program(draw, max_pops=5, max_steps=5, allow_ancient=True, allow_true_split=
                 nu1 = math.exp(draw(st.floats(math.log(0.3), math.log(4.0))))
                 anygrow = True
             sizes.append([nu0, nu1, kind])
+            cont.append(False)
+            live[i]['prev'] = (kind, nu0, nu1, T)
         mig = [[0.0] * k for _ in range(k)]
         if allow_mig and k >= 2 and draw(st.booleans()):
             for i in range(k):
                 for j in range(k):
                     if i != j and not live[i]['frozen'] and not live[j]['frozen'] and draw(st.integers(0, 2)) == 0:
                         mig[i][j] = draw(st.sampled_from([0.5, 1.0, 2.5]))
-        T = draw(st.sampled_from([0.02, 0.05, 0.1]))
-        steps.append(dict(event=ev, integrate=dict(T=T, sizes=sizes, mig=mig)))
+        steps.append(dict(event=ev, integrate=dict(T=T, sizes=sizes, mig=mig, cont=cont)))
     # sizes of a population continue from epoch to epoch only by chance; that is allowed (instantaneous size changes)
     kmax = max(len(s['integrate']['sizes']) for s in steps)
     lo, hi = {1: (12, 20), 2: (10, 16), 3: (10, 14), 4: (9, 11), 5: (8, 9)}[kmax]
@@ -125,7 +147,7 @@ def program(draw, max_pops=5, max_steps=5, allow_ancient=True, allow_true_split=
 
 
 def features(prog):
-    f = dict(max_pops=1, true_split=False, ancient=0, mig=False, pulse=False, growth=False, admix=False, merge=False, remove=False)
+    f = dict(max_pops=1, true_split=False, ancient=0, mig=False, pulse=False, growth=False, admix=False, merge=False, remove=False, long_epoch=False)
     k = 1
     for s in prog['steps']:
         ev = s['event']
@@ -147,6 +169,8 @@ def features(prog):
             f['mig'] = True
         if any(z[2] != 'constant' for z in s['integrate']['sizes']):
             f['growth'] = True
+        if any(c and z[2] != 'constant' for c, z in zip(s['integrate'].get('cont', []), s['integrate']['sizes'])):
+            f['long_epoch'] = True
     return f
 
 
@@ -386,10 +410,25 @@ def to_demes(prog, time_units='generations', generation_time=None, scale=1.0, up
                 axes.pop(ev['pop'])
         it = s['integrate']
         end = gen(sum(Ts[si + 1:]))
+        # a continued epoch is merged with its predecessor only if the step boundary stays a break point of the graph for another
+        # reason (an event, another deme's epoch boundary, a migration interval); otherwise the graph would be integrated across it
+        # in one call while the native program makes two, and the two would differ by the time-step error
+        prev_it = prog['steps'][si - 1]['integrate'] if si > 0 else None
+        contflags = list(it.get('cont') or [False] * len(axes))
+        forced = ev is not None or not all(c for c, ax in zip(contflags, axes) if not isinstance(ax, tuple)) or any(any(r) for r in it['mig']) or (prev_it is not None and any(any(r) for r in prev_it['mig']))
+        if not forced:
+            contflags = [False] * len(axes)
         for i, ax in enumerate(axes):
             if isinstance(ax, tuple):
                 continue
             a, b, kind = it['sizes'][i]
+            if contflags[i] and demes_d[ax]['epochs']:
+                # the same epoch goes on: extend it instead of starting a new one
+                last = demes_d[ax]['epochs'][-1]
+                last['end_time'] = end
+                if kind != 'constant':
+                    last['end_size'] = b * N0
+                continue
             ep = dict(end_time=end, start_size=a * N0, end_size=b * N0, size_function=kind)
             if kind == 'constant':
                 ep.pop('end_size')
